@@ -277,3 +277,8 @@ fn c04_two_adds() {
     std::mem::forget(sq);
     std::mem::forget(sq2);
 }
+
+/// `Submissions` around an `Arc<Shared>` built in place (see kernel.rs).
+pub(crate) fn submissions_in_place(len: u32, kernel_thread: bool, single_issuer: bool) -> Submissions {
+    Submissions { shared: k::build_shared_arc(len, kernel_thread, single_issuer) }
+}
